@@ -312,59 +312,73 @@ def _check_threaded(case: Dict[str, Any]) -> Dict[str, Any]:
 
         for i, op in enumerate(case['ops']):
             kind = op['op']
-            if kind == 'register':
-                info = sim.make_service_info(SVCS[op['svc']])
-                infos[op['svc']] = info
-                if op['bg']:
-                    before = n_probes()
-                    b = Bg(f'register{op["svc"]}', lambda info=info: zc.register_service(info))
+            # no operation starts once a close has begun (the close may come from a browser callback, i.e. another thread): an
+            # application adding listeners to an instance that one of its own threads is closing is its own race, not the library's
+            if C['started'].is_set():
+                break
+            held = kind != 'sleep'
+            if held:
+                C['lock'].acquire()
+                if C['started'].is_set():
+                    C['lock'].release()
+                    break
+            try:
+                if kind == 'register':
+                    info = sim.make_service_info(SVCS[op['svc']])
+                    infos[op['svc']] = info
+                    if op['bg']:
+                        before = n_probes()
+                        b = Bg(f'register{op["svc"]}', lambda info=info: zc.register_service(info))
+                        bgs.append(b)
+                        b.thread.start()
+                        _wait_for(lambda: n_probes() > before or not b.thread.is_alive())    # it is inside the library, on the loop
+                    else:
+                        zc.register_service(info)
+                        registered.append(op['svc'])
+                elif kind == 'unregister' and registered:
+                    k = registered.pop(0)
+                    unregistered_ks.add(k)
+                    zc.unregister_service(infos[k])
+                elif kind == 'browser':
+                    lst = ThreadListener(w, op['slow_ms'], op.get('spawn', 0), TYPES[1 - op['type']], listeners)
+                    if op.get('close_here'):
+                        lst.closer = lambda g0: do_close('callback', g0)
+                    listeners.append(lst)
+                    if op.get('direct'):
+                        # the README's way: the application creates the ServiceBrowser itself and only ever closes the instance
+                        from zeroconf import ServiceBrowser
+
+                        browser_threads.append(ServiceBrowser(zc, TYPES[op['type']], listener=lst))
+                        direct_browsers.append(browser_threads[-1])
+                    else:
+                        zc.add_service_listener(TYPES[op['type']], lst)
+                        browser_threads.append(zc.browsers[lst])
+                elif kind == 'announce':
+                    names = [f'peer{i}x{k}.{TYPES[op["type"]]}' for k in range(op['n'])]
+                    announced.extend(n for n in names if n.endswith(TYPES[0]))
+                    data = wire.encode({'id': 0, 'flags': 0x8400, 'qd': [], 'an': [rp.wire_rr_of_ident(
+                        ('PTR', TYPES[op['type']], nm), 4500) for nm in names], 'ns': [], 'ar': []})
+                    w.inject(data, ('10.0.0.9', 5353))
+                elif kind == 'query':
+                    if op['what'] == 'ptr':
+                        qs = [(TYPES[0], 12, False)]
+                    elif op['what'] == 'srv':
+                        qs = [(SVCS[0]['name'], 33, False), (SVCS[0]['name'], 16, False)]
+                    else:
+                        qs = [('victim.local.', 1, False), (TYPES[1], 12, False)]
+                    w.inject(rp.build_query(qs, [], qid=7, tc=op['tc']), ('10.0.0.77', 5353))
+                elif kind == 'lookup':
+                    name = announced[0] if (op['target'] == 'announced' and announced) else 'ghost.' + TYPES[0]
+                    before = len(w.trace)
+                    b = Bg(f'lookup{i}', lambda name=name, t=op['timeout']: zc.get_service_info(TYPES[0], name, t))
                     bgs.append(b)
                     b.thread.start()
-                    _wait_for(lambda: n_probes() > before or not b.thread.is_alive())    # it is inside the library, on the loop
-                else:
-                    zc.register_service(info)
-                    registered.append(op['svc'])
-            elif kind == 'unregister' and registered:
-                k = registered.pop(0)
-                unregistered_ks.add(k)
-                zc.unregister_service(infos[k])
-            elif kind == 'browser':
-                lst = ThreadListener(w, op['slow_ms'], op.get('spawn', 0), TYPES[1 - op['type']], listeners)
-                if op.get('close_here'):
-                    lst.closer = lambda g0: do_close('callback', g0)
-                listeners.append(lst)
-                if op.get('direct'):
-                    # the README's way: the application creates the ServiceBrowser itself and only ever closes the instance
-                    from zeroconf import ServiceBrowser
-
-                    browser_threads.append(ServiceBrowser(zc, TYPES[op['type']], listener=lst))
-                    direct_browsers.append(browser_threads[-1])
-                else:
-                    zc.add_service_listener(TYPES[op['type']], lst)
-                    browser_threads.append(zc.browsers[lst])
-            elif kind == 'announce':
-                names = [f'peer{i}x{k}.{TYPES[op["type"]]}' for k in range(op['n'])]
-                announced.extend(n for n in names if n.endswith(TYPES[0]))
-                data = wire.encode({'id': 0, 'flags': 0x8400, 'qd': [], 'an': [rp.wire_rr_of_ident(
-                    ('PTR', TYPES[op['type']], nm), 4500) for nm in names], 'ns': [], 'ar': []})
-                w.inject(data, ('10.0.0.9', 5353))
-            elif kind == 'query':
-                if op['what'] == 'ptr':
-                    qs = [(TYPES[0], 12, False)]
-                elif op['what'] == 'srv':
-                    qs = [(SVCS[0]['name'], 33, False), (SVCS[0]['name'], 16, False)]
-                else:
-                    qs = [('victim.local.', 1, False), (TYPES[1], 12, False)]
-                w.inject(rp.build_query(qs, [], qid=7, tc=op['tc']), ('10.0.0.77', 5353))
-            elif kind == 'lookup':
-                name = announced[0] if (op['target'] == 'announced' and announced) else 'ghost.' + TYPES[0]
-                before = len(w.trace)
-                b = Bg(f'lookup{i}', lambda name=name, t=op['timeout']: zc.get_service_info(TYPES[0], name, t))
-                bgs.append(b)
-                b.thread.start()
-                _wait_for(lambda: len(w.trace) > before or not b.thread.is_alive())      # its first query is out: it is waiting
-            elif kind == 'sleep':
-                w.sleep_ms(op['ms'])
+                    _wait_for(lambda: len(w.trace) > before or not b.thread.is_alive())      # its first query is out: it is waiting
+                elif kind == 'sleep':
+                    w.sleep_ms(op['ms'])
+            finally:
+                if held:
+                    C['lock'].release()
         w.sleep_ms(case['close_after_ms'])
         if not C['started'].is_set():
             ct = threading.Thread(target=do_close, args=('harness', None), name='harness-closer', daemon=True)
